@@ -19,6 +19,7 @@ type zzNotifServer struct {
 	log     []string // log[i] = key written by the committed request at offset i
 	streams []*zzNotifStream
 	reqs    []*proto.NotificationsRequest
+	startAt []int64 // per request: start_offset_exclusive AT THE TIME of the request (-99: unset); the client passes a pointer to a field it keeps updating
 }
 
 type zzNotifStream struct {
@@ -67,11 +68,20 @@ func (srv *zzNotifServer) commit(key string) {
 
 type zzNotifClient struct {
 	proto.OxiaClientClient
-	srv *zzNotifServer
+	srv  *zzNotifServer
+	dead bool
 }
 
 func (c *zzNotifClient) GetNotifications(ctx context.Context, in *proto.NotificationsRequest, _ ...grpc.CallOption) (proto.OxiaClient_GetNotificationsClient, error) {
+	if c.dead {
+		return nil, io.ErrClosedPipe // this node is gone (or no longer leads the shard)
+	}
 	c.srv.reqs = append(c.srv.reqs, in)
+	if in.StartOffsetExclusive != nil {
+		c.srv.startAt = append(c.srv.startAt, *in.StartOffsetExclusive)
+	} else {
+		c.srv.startAt = append(c.srv.startAt, -99)
+	}
 	st := &zzNotifStream{ctx: ctx, srv: c.srv, broken: make(chan struct{}), wake: make(chan struct{}, 1)}
 	if in.StartOffsetExclusive != nil {
 		st.next = *in.StartOffsetExclusive + 1
@@ -144,5 +154,98 @@ func ZZClientNotify(pre, seen, during int) {
 		vAssert("every-write-committed-after-subscribing-is-notified-once-in-order", k == keys[first+i])
 	}
 	cancel()
+	vReach("end")
+}
+
+type zzSM2 struct{ leaders map[int64]string }
+
+func (zzSM2) Close() error              { return nil }
+func (zzSM2) Get(string) int64          { return 0 }
+func (zzSM2) GetAll() []int64           { return []int64{0, 1} }
+func (m zzSM2) Leader(s int64) string { return m.leaders[s] }
+
+type zzNotifPool2 struct {
+	zzNotifPool
+	c map[string]*zzNotifClient
+}
+
+func (p zzNotifPool2) GetClientRpc(t string) (proto.OxiaClientClient, error) { return p.c[t], nil }
+
+// ZZClientNotify2 (C17, client side, two shards): the real notification manager over two shard leaders. Each shard
+// has its own log (keys a0.. on shard 0, b0.. on shard 1). Both shards get `seen` writes that the application
+// receives; then shard `brk`'s stream breaks (move = 1: because its leader moved to another node), both shards get a
+// write while it is disconnected, it reconnects — to the CURRENT leader —, and
+// both get one more. Per shard the application receives exactly that shard's writes after subscription, in that
+// shard's order, none lost or doubled; the broken shard resumes right after what it had delivered; the healthy
+// shard is not disturbed (one request only); Close ends the channel.
+func ZZClientNotify2(seen, brk, move int) {
+	srvs := []*zzNotifServer{{}, {}}
+	names := [][]string{{"a0", "a1", "a2", "a3"}, {"b0", "b1", "b2", "b3"}}
+	ctx, cancel := context.WithCancel(context.Background())
+	pool := zzNotifPool2{c: map[string]*zzNotifClient{"l0": {srv: srvs[0]}, "l1": {srv: srvs[1]}}}
+	sm := zzSM2{leaders: map[int64]string{0: "l0", 1: "l1"}}
+	nm, err := newNotifications(ctx, clientOptions{requestTimeout: 30 * time.Second}, pool, sm)
+	vAssert("subscribed", err == nil)
+	if err != nil {
+		return
+	}
+	n := []int{0, 0}
+	var got [2][]string
+	recv := func(k int) {
+		for i := 0; i < k; i++ {
+			nt := <-nm.Ch()
+			if nt.Key[0] == 'a' {
+				got[0] = append(got[0], nt.Key)
+			} else {
+				got[1] = append(got[1], nt.Key)
+			}
+		}
+	}
+	write := func(s int) {
+		srvs[s].commit(names[s][n[s]])
+		n[s]++
+	}
+	for i := 0; i < seen; i++ {
+		write(0)
+		write(1)
+		recv(2)
+	}
+	if move == 1 {
+		// the stream breaks because the shard's leader moved: the old node refuses from now on, the new leader
+		// (same committed log) is what the shard manager names
+		old := sm.leaders[int64(brk)]
+		pool.c[old].dead = true
+		pool.c["l9"] = &zzNotifClient{srv: srvs[brk]}
+		sm.leaders[int64(brk)] = "l9"
+	}
+	close(srvs[brk].streams[0].broken)
+	write(0)
+	write(1)
+	recv(2)
+	write(0)
+	write(1)
+	recv(2)
+	for s := 0; s < 2; s++ {
+		vAssert("per-shard-count", len(got[s]) == n[s])
+		for i, k := range got[s] {
+			vAssert("per-shard-order-no-loss-no-duplicate", k == names[s][i])
+		}
+	}
+	vAssert("broken-shard-reconnected-once", len(srvs[brk].reqs) == 2)
+	vAssert("healthy-shard-undisturbed", len(srvs[1-brk].reqs) == 1)
+	if len(srvs[brk].reqs) == 2 {
+		r := srvs[brk].reqs[1]
+		if seen > 0 {
+			// (the old stream may still have delivered the write made right after the break)
+			at := srvs[brk].startAt[1]
+			vAssert("resumes-after-a-batch-it-has-delivered", at >= int64(seen-1) && at <= int64(seen))
+		}
+		vAssert("request-names-its-shard", r.Shard == int64(brk))
+	}
+	vAssert("first-requests-name-their-shards", srvs[0].reqs[0].Shard == 0 && srvs[1].reqs[0].Shard == 1)
+	cancel()
+	vAssert("close-ok", nm.Close() == nil)
+	_, open := <-nm.Ch()
+	vAssert("channel-closed-after-close", !open)
 	vReach("end")
 }
